@@ -23,6 +23,9 @@ R3 (K5) call sites in breezy/ (non-test) that pass a non-None expected value mus
    return it, assign it) — a dropped result turns "reports failure" into a silent no-op.
 R4 (K6) the value compared is read after following symbolic refs for set_if_equals/add_if_new (self.follow) and covers
    both loose and packed refs (read_loose_ref and get_packed_refs both consulted).
+Added while testing against seeded changes: R4 is now a decision table by abstract evaluation over the three storage
+states of a ref (loose over stale packed / packed only / absent), following one level of helper; R5 the expected value
+handed to a conditional update is never None and absent refs are created with add_if_new.
 Does not decide: atomicity between the read and the write (no lock file on arbitrary transports).
 """
 ASSUMPTIONS = ["dulwich RefsContainer semantics: ZERO_SHA stands for an absent ref in comparisons"]
